@@ -1,6 +1,7 @@
 """C07 - recreation commutes with changes of units and acts locally."""
 import numpy as np
 
+from . import _jobs
 from . import _rfa as R
 from .. import gen, tol
 from ..core import fp_watch
@@ -23,8 +24,9 @@ RULE = ("family = strategy x series (2..30 points) x n x parameters, with one of
         " Also: changes of unit by 2**+-(20..60) (exact) and 10**+-12 (generic), float32 / float16 averages, a second object of the same class in between."
         " Round-4 classes: power-of-two scales up to the edge of the float range (2**-900 .. 2**+900, as far as every value and jump stays normal)."
         " Round-6 classes: RuntimeWarnings on the first (ordinary) request are violations (see C04)."
-        " Round-7 classes: as C05.")
-REQUIRED_MONITORS = ["c07:value_map", "c07:time_map", "c07:locality", "c07:weights"]
+        " Round-7 classes: as C05."
+        " Round-8 classes: a 'threads' kind as in C05 (independent requests, ONE strategy object shared by the threads, first use of the library from several threads at once).")
+REQUIRED_MONITORS = ["threads:rfa", "threads:first_use:rfa", "c07:value_map", "c07:time_map", "c07:locality", "c07:weights"]
 ASSUMPTIONS = ["strategy parameters in the documented ranges; x strictly increasing"]
 NSHARDS = 16
 NONADAPTIVE = ["LinearFixedRFA", "ExpFixedRFA", "PiecewiseConstantRFA", "CubicSplineRFA"]
@@ -32,7 +34,8 @@ NONADAPTIVE = ["LinearFixedRFA", "ExpFixedRFA", "PiecewiseConstantRFA", "CubicSp
 
 def plan(tier, seed):
     n = 8000 if tier == "quick" else 400000
-    return [{"kind": "family", "start": p * (n // NSHARDS), "count": n // NSHARDS} for p in range(NSHARDS)]
+    return [{"kind": "family", "start": p * (n // NSHARDS), "count": n // NSHARDS} for p in range(NSHARDS)] + \
+        _jobs.plan(tier, shards=1)
 
 
 def run_case(ctx, kind_, idx):
@@ -204,9 +207,13 @@ def run_case(ctx, kind_, idx):
 
 
 def run(ctx, spec):
+    if spec["kind"] in ("threads", "threads_cold"):      # the answers must not depend on who else is asking
+        return _jobs.run(ctx, spec, ["rfa"])
     for idx in range(spec["start"], spec["start"] + spec["count"]):
         run_case(ctx, spec["kind"], idx)
 
 
 def replay(ctx, case):
+    if case["kind"] in ("threads", "threads_cold"):
+        return _jobs.run_case(ctx, ["rfa"], case["idx"], cold=case["kind"] == "threads_cold")
     run_case(ctx, case["kind"], case["idx"])
